@@ -410,7 +410,7 @@ class C04(SimSpec):
     n = {"quick": 360, "thorough": 5000}
     rule = (
         "chains / diamonds / fan shapes of flagged and unflagged jobs with failures at the head, in the middle and nowhere; batch size 1-3 and max-nodes 1-2 so that the "
-        "failing job and its dependents land in the same batch, the next batch and several rounds later; oracle: canceled rows <=> model, canceled => never started, "
+        "failing job and its dependents land in the same batch, the next batch and several rounds later; a quarter of the runs in local mode (one queue, listing order independent of dependency order, half of them dependents-first); oracle: canceled rows <=> model, canceled => never started, "
         "unflagged => started exactly once; non-trivial = a cancellation chain of length >= 2 (by the model) in a run with >= 2 batches"
     )
 
@@ -431,6 +431,23 @@ class C04(SimSpec):
             if rng.random() < 0.7:
                 g["time_based"] = False
         scen["max_nodes"] = rng.choice([None, 1, 1, 2])
+        if i % 8 in (1, 6):
+            # local mode: every job goes through ONE queue in listing order, which is independent of dependency order (a
+            # batch built by a submitter always lists blockers first) - deep cancellation chains listed deepest-first, with
+            # other jobs queued behind them
+            scen["mode"] = "local"
+            scen["groups"] = scen["groups"][:1]
+            scen["groups"][0]["time_based"] = False
+            for j in scen["jobs"]:
+                j["group"] = scen["groups"][0]["name"]
+            scen["user"] = {}
+            if rng.random() < 0.5:
+                scen["jobs"].sort(key=lambda j: j["name"], reverse=True)  # names follow dependency order: reversed = dependents first
+            if rng.random() < 0.6:
+                # a long cancellation chain: the head fails, (nearly) everything downstream is flagged
+                by[names[0]]["rc"] = rng.choice([1, 2, 255])
+                for j in scen["jobs"]:
+                    j["flag"] = j["name"] != names[0] and rng.random() < 0.85
         if i % 8 == 3:
             # the same rule among the jobs that a resubmission reruns: the head fails again (or not) and its flagged dependents,
             # placed in the same / a later batch, must be canceled again exactly when a rerun blocker failed
@@ -465,7 +482,7 @@ class C04(SimSpec):
         return max([depth(n) for n in by] + [0])
 
     def nontrivial(self, t, r):
-        return self.chain_len(t["args"]["scen"]) >= 2 and (r.get("sbatches") or 0) >= 2 and r.get("complete")
+        return self.chain_len(t["args"]["scen"]) >= 2 and ((r.get("sbatches") or 0) >= 2 or t["args"]["scen"].get("mode") == "local") and r.get("complete")
 
     def counters(self, tasks, results):
         c = self.base_counters(tasks, results)
@@ -476,6 +493,7 @@ class C04(SimSpec):
             sub += cs.get("submitter", 0)
         c["cancellations_recorded_on_a_node"] = node
         c["cancellations_recorded_by_a_submitter"] = sub
+        c["local_mode_runs"] = sum(1 for t in tasks if t["args"]["scen"].get("mode") == "local")
         c["model_cancel_chain_lengths"] = hist(self.chain_len(t["args"]["scen"]) for t in tasks)
         return c
 
